@@ -46,6 +46,9 @@ def malformed(rng):
                        '2r$', '2rx', '2r:', '8rL', '4rT', 'rit.', '4c 4e $', '4d ', '4c 4e ', '=1 ']), 'garbage-suffix'
 
 
+_ENV_TEXTS = []
+
+
 def outcome(fn, text):
     try:
         return ('ok', kpx.tok_fp(fn(text)))
@@ -110,6 +113,8 @@ def doc_level(ctx: Ctx, cs):
     case = {'case_seed': cs, 'text': x, 'clean_text': x0,
             'replaced': [{'line': li + 1, 'col': c, 'text': v[0], 'class': v[1], 'spine': v[2]} for (li, c), v in sorted(repl.items())]}
     consumption.clear()
+    if len(_ENV_TEXTS) < 8 and len(x) < 4000:
+        _ENV_TEXTS.append(x)
     d, errs, exc = kpx.loads(x)
     if exc is not None:
         ctx.violation('import-raises', f'import of a document with {len(repl)} malformed cells raised {type(exc).__name__}: {exc}', case)
@@ -359,6 +364,11 @@ def run(ctx: Ctx):
         history_level(ctx, cs)
     for cs in cases(ctx, 'c12o', n_hist):
         order_level(ctx, cs)
+    if (ctx.shard is None or ctx.shard[0] == 0) and _ENV_TEXTS:
+        # environment axis: the first damaged documents again in child interpreters (other hash seeds, warnings as errors, ASCII default
+        # encoding, -O with asserts stripped, another current directory): same error list, same tokens, same exports
+        from .. import envchild
+        envchild.run_variants(ctx, list(_ENV_TEXTS))
     ctx.extra['consumption_monitor'] = dict(consumption.COUNT)
     ctx.floors = {'malformed cells': ('malformed_cells_in_grammar_checked_spines', 80), 'history events': ('history_events', 2000),
                   'tokens': ('tokens_compared', 5000)}
